@@ -1997,6 +1997,8 @@ class Tensor:
 
         if not _track.TRACK_GRAPH:
             self.data.shape = newshape
+            # (a gradient of the old shape no longer describes this tensor)
+            self.null_grad()
             return
 
         if newshape == self.shape:
